@@ -71,6 +71,14 @@ impl<'de> Deserialize<'de> for RawNumber {
             {
                 Ok(RawNumber::new(raw))
             }
+
+            // the text comes from a DOM value (`from_value`), which may have to format it first
+            fn visit_str<E>(self, raw: &str) -> Result<Self::Value, E>
+            where
+                E: de::Error,
+            {
+                Ok(RawNumber::new(raw))
+            }
         }
 
         deserializer.deserialize_newtype_struct(TOKEN, JsonNumberVisitor)
